@@ -80,14 +80,15 @@ def handed_key(udata):
 
 def handed_out(rep, tier, wd, uni, udata, hbin, replay=None, traces=None):
     key_fn = handed_key(udata)
-    cfg = "Trace_TxPool_C19h.cfg"
+    suffix = "" if tier == "quick" else "_thorough"
+    cfg = "Trace_TxPool_C19h%s.cfg" % suffix
     if replay:
         tc.register(rep, vlib.validate_trace(tc.TRACE, cfg, replay, name="C19-replay-h"), "C19-replay-h", key_fn)
         return
     # 1. the model: does forgetting (bounded LRU) let the transcription admit what the ghosts forbid?
-    r = vlib.require_clean(vlib.tlc(tc.MODULE, "Sim_TxPool_C19h.cfg", name="C19-mc-h", workers=4, timeout=900,
-                                    extra=["-simulate", "num=100000", "-depth", "16", "-seed", str(vlib.seed())]), "MC C19h")
-    rep.add_mc(r, "simulate-handed-out")
+    r = vlib.require_clean(vlib.tlc(tc.MODULE, "Sim_TxPool_C19h%s.cfg" % suffix, name="C19-mc-h", workers=4, timeout=900,
+                                    extra=["-simulate", "num=100000", "-depth", "16" if tier == "quick" else "22", "-seed", str(vlib.seed())]), "MC C19h")
+    rep.add_mc(tc.sim_counts(r), "simulate-handed-out")
     rep.extra["model_handed_out"] = r.violated or "held in %d simulated states" % r.generated
     if r.violated:
         steps = tc.last_hist(r.out)
